@@ -4,9 +4,9 @@
    distinct object path of the loaded Griffe tree, including the aliases Griffe materialises for inherited
    class members, so "index in seen" is `old_member.path in seen_paths`.
 
-   Mirrors: _member_incompatibilities (public filter, removal rule), _type_based_yield (seen_paths guard, alias
-   branch first, kind change, dispatch), _alias_incompatibilities (AliasResolutionError skipped, CyclicAliasError
-   NOT caught), _class_incompatibilities, _attribute_incompatibilities, _returns_are_compatible,
+   Mirrors: _member_incompatibilities (public filter, removal rule), _type_based_yield (seen_paths guard keyed on the
+   (old path, new path) pair, alias branch first, kind change, dispatch), _alias_incompatibilities (AliasResolutionError
+   and CyclicAliasError both skipped), _class_incompatibilities, _attribute_incompatibilities, _returns_are_compatible,
    _function_incompatibilities (= C10's fdiff, imported), mixins.py:is_public / is_private / is_special /
    is_imported, all_members (= inherited ++ declared), cli.py:check exit code.
 
@@ -54,6 +54,7 @@ Fixpoint lookup (n : string) (ms : list (string * nat)) : option nat :=
   match ms with [] => None | (k, v) :: r => if String.eqb k n then Some v else lookup n r end.
 Definition smem (n : string) (l : list string) := existsb (String.eqb n) l.
 Definition nmem (n : nat) (l : list nat) := existsb (Nat.eqb n) l.
+Definition pmem (i j : nat) (l : list (nat * nat)) := existsb (fun p => Nat.eqb (fst p) i && Nat.eqb (snd p) j) l.
 
 (* ---- mixins.py name predicates ---- *)
 Definition starts_with (p s : string) := prefix p s.
@@ -70,25 +71,30 @@ Definition is_public (p m : node) : bool :=
   | None =>
     if negb (is_alias m) && is_module m && negb (starts_with "_" (nname m)) then true
     else match nbody p with
-         | BModule (Some (e :: es)) _ _ => smem (nname m) (e :: es)      (* parent.is_module and bool(parent.exports) *)
+         | BModule (Some es) _ _ => smem (nname m) es      (* parent.is_module and parent.exports is not None *)
          | _ => if is_private (nname m) then false
                 else if smem (nname m) (imports_of p) then false
                 else true
          end
   end.
 
-(* the ladder as documented in the docstring of is_public (spec side): defined-__all__ decides, even when empty *)
+(* the ladder as the docstring of is_public words it (spec side), rule by rule:
+   1 public attribute set -> its value;  (module exception: a non-underscore module is public)
+   2 listed in the parent module's __all__ -> public;  3 parent module defines __all__, not listed -> private;
+   4 private name -> private;  5 imported -> private;  6 otherwise public *)
+Definition listed_in_all (p m : node) : bool :=
+  match nbody p with BModule (Some es) _ _ => smem (nname m) es | _ => false end.
+Definition defines_all (p : node) : bool := match nbody p with BModule (Some _) _ _ => true | _ => false end.
 Definition is_public_doc (p m : node) : bool :=
   match npublic m with
   | Some b => b
   | None =>
     if negb (is_alias m) && is_module m && negb (starts_with "_" (nname m)) then true
-    else match nbody p with
-         | BModule (Some es) _ _ => smem (nname m) es
-         | _ => if is_private (nname m) then false
-                else if smem (nname m) (imports_of p) then false
-                else true
-         end
+    else if listed_in_all p m then true
+    else if defines_all p then false
+    else if is_private (nname m) then false
+    else if smem (nname m) (imports_of p) then false
+    else true
   end.
 
 Definition tgt_of (n : node) (self : nat) : tgt := match nbody n with BAlias t => t | _ => TRes self end.
@@ -103,7 +109,7 @@ Inductive breakage :=
 | BReturn (n : nat).                 (* RETURN_CHANGED_TYPE, obj = the new function *)
 
 Inductive ev := EHead (i j : nat) | EMembers (i j : nat).
-Inductive res := Ok (seen : list nat) (log : list ev) | ErrCyclic | ErrBad | OutOfFuel.
+Inductive res := Ok (seen : list (nat * nat)) (log : list ev) | ErrBad | OutOfFuel.
 
 Fixpoint natlist_eqb (a b : list nat) : bool :=
   match a, b with [] , [] => true | x :: r, y :: s => Nat.eqb x y && natlist_eqb r s | _, _ => false end.
@@ -140,10 +146,10 @@ Definition local (e : ev) : list breakage :=
 Definition breakages (log : list ev) : list breakage := flat_map local log.
 
 Section Step.
-Variable rec : list nat -> nat -> nat -> res.
+Variable rec : list (nat * nat) -> nat -> nat -> res.
 
 (* the loop of _member_incompatibilities over old_obj.all_members; p = old_obj, nms = new_obj.all_members *)
-Fixpoint mloop (p : node) (nms ms : list (string * nat)) (seen : list nat) : res :=
+Fixpoint mloop (p : node) (nms ms : list (string * nat)) (seen : list (nat * nat)) : res :=
   match ms with
   | [] => Ok seen []
   | (n, m) :: r =>
@@ -163,19 +169,17 @@ Fixpoint mloop (p : node) (nms ms : list (string * nat)) (seen : list nat) : res
   end.
 
 (* _type_based_yield (+ _alias_incompatibilities, _class_incompatibilities) *)
-Definition step (seen : list nat) (i j : nat) : res :=
-  if nmem i seen then Ok seen []
+Definition step (seen : list (nat * nat)) (i j : nat) : res :=
+  if pmem i j seen then Ok seen []
   else match get go i, get gn j with
        | Some oi, Some nj =>
-         let seen1 := i :: seen in
+         let seen1 := (i, j) :: seen in
          if is_alias oi || is_alias nj then
            match tgt_of oi i with
-           | TUnres => Ok seen1 [EHead i j]
-           | TCyc => ErrCyclic
+           | TUnres | TCyc => Ok seen1 [EHead i j]          (* AliasResolutionError / CyclicAliasError: skipped *)
            | TRes i' =>
              match tgt_of nj j with
-             | TUnres => Ok seen1 [EHead i j]
-             | TCyc => ErrCyclic
+             | TUnres | TCyc => Ok seen1 [EHead i j]
              | TRes j' => match rec seen1 i' j' with Ok s l => Ok s (EHead i j :: l) | e => e end
              end
            end
@@ -189,7 +193,7 @@ Definition step (seen : list nat) (i j : nat) : res :=
        end.
 End Step.
 
-Fixpoint tby (fuel : nat) : list nat -> nat -> nat -> res :=
+Fixpoint tby (fuel : nat) : list (nat * nat) -> nat -> nat -> res :=
   match fuel with 0 => fun _ _ _ => OutOfFuel | S f => step (tby f) end.
 
 (* find_breaking_changes(old_root, new_root): _member_incompatibilities with a fresh seen_paths *)
@@ -202,36 +206,11 @@ Definition fbc (fuel ri rj : nat) : res :=
   | _, _ => ErrBad
   end.
 
-(* a counterpart map old index -> new index is consistent when public-member steps and alias-target steps of the
-   traversal map counterparts to counterparts (finding C11-F2 is exactly its failure) *)
-Fixpoint cp_get (cp : list (nat * nat)) (i : nat) : option nat :=
-  match cp with [] => None | (a, b) :: r => if Nat.eqb a i then Some b else cp_get r i end.
-Definition onat_eqb (a b : option nat) :=
-  match a, b with Some x, Some y => Nat.eqb x y | None, None => true | _, _ => false end.
-Definition consistent_at (cp : list (nat * nat)) (i j : nat) : bool :=
-  match get go i, get gn j with
-  | Some oi, Some nj =>
-    forallb (fun nm => match get go (snd nm) with
-                       | Some mo => if is_public oi mo then
-                                      match lookup (fst nm) (all_members nj) with
-                                      | Some m' => onat_eqb (cp_get cp (snd nm)) (Some m')
-                                      | None => true end
-                                    else true
-                       | None => true end) (all_members oi)
-    && (if is_alias oi || is_alias nj then
-          match tgt_of oi i, tgt_of nj j with
-          | TRes i', TRes j' => onat_eqb (cp_get cp i') (Some j')
-          | _, _ => true end
-        else true)
-  | _, _ => true
-  end.
-Definition consistent (cp : list (nat * nat)) : bool := forallb (fun ab => consistent_at cp (fst ab) (snd ab)) cp.
-
 End Diff.
 
-Definition default_fuel (go : store) := S (List.length go).
+Definition default_fuel (go gn : store) := S (List.length go * List.length gn).
 
-(* cli.py:check -- 0 when nothing is reported, 1 when something is; an escaping exception ends the process with 1 *)
+(* cli.py:check -- 0 when nothing is reported, 1 when something is (ErrBad / OutOfFuel do not arise on well-formed stores) *)
 Definition check_exit (go gn : store) (r : res) : nat :=
   match r with Ok _ log => match breakages go gn log with [] => 0 | _ => 1 end | _ => 1 end.
 
@@ -244,9 +223,6 @@ Definition ids_ok (g : store) (n : node) : bool :=
 Definition sig_ok (n : node) : bool := match nbody n with BFunction s _ => nodup_names s | _ => true end.
 Definition wf_store (g : store) : bool :=
   forallb (fun n => ids_ok g n && nodup_keys (all_members n) && sig_ok n) g.
-Definition no_cyclic (g : store) : bool :=
-  forallb (fun n => match nbody n with BAlias TCyc => false | _ => true end) g.
-
 (* ---- s-expression interface ---- *)
 Definition dec_members : sexp -> option (list (string * nat)) :=
   as_list_of (fun s => match s with SList [k; v] => do k' <- as_str k; do v' <- as_nat v; Some (k', v') | _ => None end).
@@ -273,9 +249,6 @@ Definition dec_node (s : sexp) : option node :=
   | SList [n; p; b] => do n' <- as_str n; do p' <- as_opt as_bool p; do b' <- dec_body b; Some (mkNode n' p' b')
   | _ => None end.
 Definition dec_store : sexp -> option store := as_list_of dec_node.
-Definition dec_cp : sexp -> option (list (nat * nat)) :=
-  as_list_of (fun s => match s with SList [a; b] => do a' <- as_nat a; do b' <- as_nat b; Some (a', b') | _ => None end).
-
 Definition enc_breakage (b : breakage) : sexp :=
   match b with
   | BRemoved o => SList [SStr "removed"; SStr "old"; of_nat o]
@@ -290,19 +263,17 @@ Definition enc_ev (e : ev) : sexp :=
 
 Definition run_C11 (s : sexp) : sexp :=
   match s with
-  | SList [SStr "diff"; o; n; ri; rj; cp] =>
-      match dec_store o, dec_store n, as_nat ri, as_nat rj, dec_cp cp with
-      | Some go, Some gn, Some ri', Some rj', Some cp' =>
-          let r := fbc go gn (default_fuel go) ri' rj' in
-          let flags := SList [of_bool (wf_store go && wf_store gn); of_bool (consistent go gn cp');
-                              of_bool (no_cyclic go && no_cyclic gn); of_nat (check_exit go gn r)] in
+  | SList [SStr "diff"; o; n; ri; rj] =>
+      match dec_store o, dec_store n, as_nat ri, as_nat rj with
+      | Some go, Some gn, Some ri', Some rj' =>
+          let r := fbc go gn (default_fuel go gn) ri' rj' in
+          let flags := SList [of_bool (wf_store go && wf_store gn); of_nat (check_exit go gn r)] in
           match r with
           | Ok seen log => SList [SStr "ok"; SList (map enc_breakage (breakages go gn log)); flags; SList (map enc_ev log)]
-          | ErrCyclic => SList [SStr "cyclic"; SList []; flags; SList []]
           | ErrBad => SList [SStr "bad-store"; SList []; flags; SList []]
           | OutOfFuel => SList [SStr "out-of-fuel"; SList []; flags; SList []]
           end
-      | _, _, _, _, _ => bad_input end
+      | _, _, _, _ => bad_input end
   | SList [SStr "public"; p; ms] =>
       match dec_node p, as_list_of dec_node ms with
       | Some p', Some ms' => SList (map (fun m => SList [of_bool (is_public p' m); of_bool (is_public_doc p' m)]) ms')
